@@ -281,9 +281,22 @@ def run_check(prop, tier='quick', seed=0, jobs=None, only=None, write_baseline=F
         print(f'CHECKER-ERROR property={prop}: no obligations selected')
         return 3
     jobs = jobs or min(16, os.cpu_count() or 4)
-    ctx = mp.get_context('fork')
-    with ctx.Pool(jobs, maxtasksperchild=50) as pool:
-        results = pool.map(_dispatch, tasks, chunksize=1)
+    from .hardpool import HardPool
+
+    def on_timeout(task, lim):
+        kind, args = task
+        if kind == 'shape':
+            q, i = args[0], args[1]
+            sh = C.REGISTRY[q].shapes[i]
+            return {'kind': 'shape', 'qualname': q, 'shape': sh.name, 'shape_idx': i, 'clauses': {'all': {'verdict': 'undecided', 'paths': 0, 'unsat': 0, 'unknown': 1, 'sat': 0}},
+                    'stats': dict(paths=0, infeasible=0, unsupported=[f'hard wall limit of {lim:.0f}s exceeded (worker killed)'], bounded=0, solver_calls=0, cover=1,
+                                  side_fail=[], unknown_feasibility=0, errors=[], used_contracts=[], wall_s=lim),
+                    'replays': [], 'cross': None, 'contract_kind': C.REGISTRY[q].kind, 'stable': sh.stable, 'seconds': lim, 'hard_timeout': True}
+        return {'kind': kind, 'crash': f'hard wall limit of {lim:.0f}s exceeded', 'id': str(args[:2])}
+    hard = budget['wall_s'] * 2 + 60
+    pool = HardPool(_dispatch, jobs, hard, on_timeout)
+    try:
+        results = pool.map(tasks)
         # close the cone: contracts relied on modularly must be checked in the same run
         done = {q for q, _ in selected}
         for _round in range(6):
@@ -299,8 +312,8 @@ def run_check(prop, tier='quick', seed=0, jobs=None, only=None, write_baseline=F
                 done.add(q)
                 for i, sh in enumerate(C.REGISTRY[q].shapes):
                     more.append(('shape', (q, i, tier, seed, budget)))
-            results.extend(pool.map(_dispatch, more, chunksize=1))
-        # retry pass: shapes whose only trouble was a solver 'unknown' get four times the budget on a quiet machine
+            results.extend(pool.map(more))
+        # retry pass: shapes whose only trouble was a solver 'unknown' get a larger budget on a quiet machine
         retry = []
         for i, r in enumerate(results):
             if r.get('kind') == 'shape' and 'stats' in r and r.get('stable', True) and not r['stats']['unsupported'] \
@@ -313,13 +326,16 @@ def run_check(prop, tier='quick', seed=0, jobs=None, only=None, write_baseline=F
         if tier == 'quick':
             retry = retry[:12]
         if retry:
-            with ctx.Pool(min(6, jobs), maxtasksperchild=20) as pool2:
-                again = pool2.map(_dispatch, [t for _, t in retry], chunksize=1)
+            pool.close()
+            pool = HardPool(_dispatch, min(6, jobs), hard * 1.5, on_timeout)
+            again = pool.map([t for _, t in retry])
             for (i, _), r2 in zip(retry, again):
-                if 'clauses' in r2 and sum(cv['verdict'] == 'undecided' for cv in r2['clauses'].values()) < \
+                if 'clauses' in r2 and not r2.get('hard_timeout') and sum(cv['verdict'] == 'undecided' for cv in r2['clauses'].values()) < \
                         sum(cv['verdict'] == 'undecided' for cv in results[i]['clauses'].values()):
                     r2['retried'] = True
                     results[i] = r2
+    finally:
+        pool.close()
     return aggregate(prop, tier, seed, results, t_start, write_baseline, extra_mod, quiet)
 
 
